@@ -89,6 +89,10 @@ def verify_function(make_ctx, reg, qualname, timeout_ms=10000, both=False):
         rep.time = time.time() - t0
         return rep
     rep.file, rep.sha, rep.lines = fi.path, fi.sha, list(fi.lines)
+    if not hasattr(reg, "alias"):
+        reg.alias = {}
+    if fi.qualname != qualname:
+        reg.alias[fi.qualname] = qualname
     ctx.policy.update(c.get("calls", {}))
     dtags = c["tags"]
     is_init = fi.name == "__init__"
@@ -161,6 +165,7 @@ def verify_function(make_ctx, reg, qualname, timeout_ms=10000, both=False):
         fname = qualname.split(":")[1]
         if outcome[0] == "normal":
             result = outcome[1]
+            pf.env["result"] = result
             genv = dict(pf.env)
             for gu in (k["ghost_init"] if (k is not None and is_init) else []) + c["ghost_update"]:
                 exec_ghost(it, reg, gu, pf, result, run.old_state, genv)
